@@ -182,9 +182,10 @@ def name_positions(text):
     return out
 
 
-def requests_for(rng, world, per_world, exhaustive=False):
+def requests_for(rng, world, per_world, exhaustive=False, collide=0.1):
     """rename requests on a world: positions of names in import statements and uses, in the entity's
-    own modules (self references), the users inside and outside the project"""
+    own modules (self references), the users inside and outside the project; a fraction `collide` of
+    the new names is the name of something that exists"""
     cands = []
     for path in world['entity'] + world['users']:
         pos = name_positions(world['files'][path])
@@ -210,8 +211,13 @@ def requests_for(rng, world, per_world, exhaustive=False):
             r = rng.random()
             pool = own if own and r < 0.45 else imp if imp and r < 0.85 else cands
             pick.append(rng.choice(pool))
+    # names that are taken: stems of the files and directories of the world (a rename onto one of
+    # them, in the same directory, asks jedi to move a file or package onto an existing one)
+    taken = sorted({c[:-3] if c.endswith('.py') else c for f in world['files'] for c in f.split('/')}
+                   - {'__init__', ''})
     out = []
     for path, line, col, value, _imp in pick:
-        out.append({'kind': 'rename', 'file': path, 'line': line, 'column': col,
-                    'new_name': rng.choice(fresh)})
+        clash = [t for t in taken if t != value]
+        new = rng.choice(clash) if clash and rng.random() < collide else rng.choice(fresh)
+        out.append({'kind': 'rename', 'file': path, 'line': line, 'column': col, 'new_name': new})
     return out
